@@ -85,7 +85,7 @@ func (k verifServerKey) Decrypt(r io.Reader, msg []byte, opts crypto.DecrypterOp
 
 // C07 / C08 / C10 / C03 — the real server handshake against a symbolic client.
 //
-//verif:harness props=C07,C08,C10,C03,C12,C09 twinprops=C07,C08,C10 paths=1200000 tpaths=6000000 depth=300 reach=completedFull,completedResumed,failed
+//verif:harness props=C07,C08,C10,C03,C12,C09,C04 twinprops=C07,C08,C10,C04 paths=1200000 tpaths=6000000 depth=300 reach=completedFull,completedResumed,failed
 func VerifHarness_server_handshake() {
 	stubSuites()
 	cache := &verifCache{}
